@@ -141,8 +141,12 @@ Definition desc_names (d : str) : list str := desc_names_go d None.
 (* ---------------------------------------------------------------------------------------- *)
 (* nester_run.rs: MyRemapper::new / build_translation over the WHOLE table                     *)
 
-(* recursion over the user-supplied chain of enclosing classes: fuel; out of fuel = Err (the Rust
-   code recurses without bound on a cyclic table) *)
+(* recursion over the user-supplied chain of enclosing classes.  The Rust code counts the nests it
+   has passed (`depth`) and bails with "cyclic nests table" once the count exceeds the size of the
+   table (fix c9cdfec; before it recursed without bound and the process died of a stack overflow).
+   Here: fuel |T|+1, out of fuel = that Err.  Both bounds are reached only on a chain that comes back
+   to a class it has passed (Theory7.translation_err_iff: Err <-> the table is cyclic), so the exact
+   position of the check does not matter. *)
 Fixpoint build_translation (fuel : nat) (T : table) (c : str) : res str :=
   match fuel with
   | O => Err
@@ -223,7 +227,7 @@ Definition jar_classes (J : jar) : list str := map fst J.
 Definition this_nests (J : jar) (T : table) : table := fst (filter_nests J T (jar_classes J) []).
 Definition new_classes (J : jar) (T : table) : list str := snd (filter_nests J T (jar_classes J) []).
 
-(* fn remap(this_nests, nest): over the FILTERED table *)
+(* fn remap(this_nests, nest, depth): over the FILTERED table; same depth bound, same Err *)
 Fixpoint jar_remap (fuel : nat) (F : table) (n : nest) : res str :=
   match fuel with
   | O => Err
